@@ -25,7 +25,7 @@ META = {
     "title": "Control-flow and loop lowerings preserve program results",
     "category": "translation_validation",
     "design_ref": "DESIGN.md §5 C16",
-    "lean_modules": ["XdslProofs.C16", "XdslProofs.C16Flatten", "XdslProofs.C16Lowering", "XdslProofs.SemMeta"],
+    "lean_modules": ["XdslProofs.C16", "XdslProofs.C16Flatten", "XdslProofs.C16Lowering", "XdslProofs.C16LowerAffine", "XdslProofs.SemMeta"],
     "text": (
         "Translation validation of convert-scf-to-cf, lower-affine, scf-for-loop-range-folding, "
         "scf-for-loop-flatten, scf-for-loop-unroll, licm, control-flow-hoist and frontend-desymrefy: "
@@ -37,7 +37,14 @@ META = {
         "and by a positive factor, flattening (i = q*N + r), full unrolling incl. zero-trip, scf.for → "
         "header/body/exit CFG by loop invariant, hoisting of a pure invariant computation out of a loop "
         "(incl. zero-trip: only for a total op) and out of a conditional. The model's folded bounds, "
-        "trip counts, induction values and flatten decisions are compared with what the real passes emit."
+        "trip counts, induction values and flatten decisions are compared with what the real passes emit. "
+        "lower-affine is also modelled at the level of the emitted operations (XdslModel/LowerAffine.lean: "
+        "affine_expr_ops, the split of the operands of affine.apply into dimensions and symbols, "
+        "insert_affine_map_ops for affine.load/store): XdslProofs/C16LowerAffine.lean proves that the emitted "
+        "operations compute the map with dimension p bound to operand p and symbol q to operand num_dims+q, "
+        "and that a well-formed map is never refused; the emitted operation list of the real pass is compared "
+        "with the model's for every (num_dims, num_symbols) ≤ (3, 3) and evaluated against a direct evaluation "
+        "of the map."
     ),
     "technique": "translation validation on a Lean reference interpreter + Lean 4 proofs of the loop-arithmetic cores + differential correspondence of the cores with the real passes",
     "level_note": (
@@ -51,7 +58,11 @@ META = {
         "parallel/min, dynamic memrefs and affine.for with operand bounds (lower-affine raises on them) "
         "are outside the generated fragment; convert-scf-to-cf has no scf.while pattern, so scf.while "
         "only occurs as surrounding structure. A pass that raises has not accepted the program (counted). "
-        "64-bit index wrap-around of folded bounds is not explored (bounds are small)."
+        "64-bit index wrap-around of folded bounds is not explored (bounds are small). affine.apply maps have up to 3 "
+        "dimensions and 3 symbols (multiplication / mod / floordiv / ceildiv by constants only); affine.load/store maps "
+        "have dimensions only (lower-affine hands them no symbols). The model XdslModel/LowerAffine.lean computes on "
+        "unbounded integers; its correspondence leg judges values only where every divisor is positive and no mod has "
+        "a negative left operand (the latter is the known remsi finding, judged by the translation validation)."
     ),
     "rule": (
         "one case = (program, pass or pass pipeline, input vector). Non-trivial = the pass changed the "
@@ -59,12 +70,14 @@ META = {
         "text, pass, input). Families: generic scf/cf programs; chains of addi/muli/subi (either operand side, single and multiple use) on the induction "
         "variable with constant (incl. 0, negative) and symbolic operands; perfect loop nests with "
         "constant inner bounds; constant-bound loops (zero-trip, negative ranges) incl. loops carrying 2–3 values whose yield permutes/forwards block arguments across slots; loops with invariant "
-        "pure ops incl. divisions; pure scf.if; counting scf.while; affine programs; symref programs "
+        "pure ops incl. divisions; pure scf.if; counting scf.while; affine programs (affine.apply maps of every shape up to 3 dims + 3 symbols); "
+        "operand-binding programs (one affine.apply whose map gives every dimension/symbol its own weight, operands a permutation of "
+        "distinct-valued arguments; affine.load/store through index-permuting two-result maps on a non-square memref); symref programs "
         "(straight-line and nested)."
     ),
     "trusted_base": [
         "reference semantics lean/XdslModel/Sem.lean (+ MiniIR parser) and serialiser harness/vp/miniir.py",
-        "hand-written model lean/XdslModel/Loops.lean (tied by correspondence with the real passes)",
+        "hand-written models lean/XdslModel/Loops.lean, lean/XdslModel/LowerAffine.lean (tied by correspondence with the real passes)",
     ],
     "budget": {"quick": 75, "thorough": 1000},
 }
@@ -551,6 +564,7 @@ def families(tier: str) -> list[tuple[str, Any, list[tuple[str, ...]], int]]:
         ("hoist_if", scf_config(["hoist_if"], shape_weight=8, max_stmts=5), [("control-flow-hoist",), ("control-flow-hoist", "licm"), ("convert-scf-to-cf",)], 3),
         ("while", scf_config(["while", "fold", "licm", "hoist_if"], shape_weight=3), one, 2),
         ("affine", "affine", [("lower-affine",), ("lower-affine", "convert-scf-to-cf"), ("lower-affine", "licm")], 4),
+        ("affine_bind", "affine_bind", [("lower-affine",), ("lower-affine", "convert-scf-to-cf")], 3),
         ("symref", "symref", [("frontend-desymrefy",)], 3),
         ("symref_nested", "symref_nested", [("frontend-desymrefy",)], 1),
     ]
@@ -562,6 +576,8 @@ def run_validation(ctx: core.Ctx, reserve_s: float) -> None:
     for name, cfg, _, _ in fams:
         if cfg == "affine":
             gens[name] = proggen.AffineGen(ctx.rng)
+        elif cfg == "affine_bind":
+            gens[name] = proggen.AffineBindGen(ctx.rng)
         elif cfg == "symref":
             gens[name] = proggen.SymrefGen(ctx.rng, False)
         elif cfg == "symref_nested":
@@ -588,7 +604,8 @@ def run_validation(ctx: core.Ctx, reserve_s: float) -> None:
                     continue
                 ctx.programs += 1
                 ctx.count(f"programs.{name}")
-                vecs = ingen.inputs(p["arg_types"], nvec)
+                # a family that needs particular inputs (distinct values, in-bounds indices) brings its own
+                vecs = p.get("vecs") or ingen.inputs(p["arg_types"], nvec)
                 for passes in passlist:
                     pname = "+".join(passes)
                     try:
